@@ -4,6 +4,7 @@ rule evaluator on registered documents.
 -/
 import Driver.TreeIO
 import AstGrepVerif.Model.Rule
+import AstGrepVerif.Spec.RuleRef
 
 open Lean AGV
 
@@ -119,5 +120,100 @@ def opRuleMatch : SHandler := fun st a => do
 
 def ruleOps : List (String × SHandler) := [
   ("rule_kinds", opRuleKinds), ("rule_match", opRuleMatch)]
+
+end Driver
+
+namespace Driver
+
+open AGV
+
+/-! ### C05 oracle: the reference semantics `Spec.sat` on the implementation's verdicts -/
+
+mutual
+partial def patternVars : PNode → List AGV.Name
+  | .metaVar (.capture n _) => [n]
+  | .metaVar (.multiCapture n) => [n]
+  | .metaVar _ => []
+  | .terminal _ _ _ => []
+  | .internal _ cs => (cs.map patternVars).flatten
+end
+
+/-- all variable occurrences of a rule, `matches` unfolded (every reference counts) -/
+partial def ruleVarOccs (locals : List (AGV.Name × Rule)) (globals : List (AGV.Name × RuleCore))
+    (depth : Nat) : Rule → List AGV.Name
+  | .pattern p _ _ => (patternVars p).eraseDups
+  | .kind _ => [] | .regex _ => [] | .range _ _ _ _ => []
+  | .nthChild _ _ ofRule _ => match ofRule with
+    | some r => ruleVarOccs locals globals depth r
+    | none => []
+  | .inside r s _ => ruleVarOccs locals globals depth r ++ stopVarOccs locals globals depth s
+  | .has r s _ => ruleVarOccs locals globals depth r ++ stopVarOccs locals globals depth s
+  | .precedes r s => ruleVarOccs locals globals depth r ++ stopVarOccs locals globals depth s
+  | .follows r s => ruleVarOccs locals globals depth r ++ stopVarOccs locals globals depth s
+  | .all rs _ => (rs.map (ruleVarOccs locals globals depth)).flatten
+  | .any rs _ => (rs.map (ruleVarOccs locals globals depth)).flatten
+  | .not r => ruleVarOccs locals globals depth r
+  | .matches id =>
+    if depth == 0 then [] else
+    match alookup id locals with
+    | some r => ruleVarOccs locals globals (depth - 1) r
+    | none => match alookup id globals with
+      | some c => ruleVarOccs locals globals (depth - 1) c.rule
+      | none => []
+where
+  stopVarOccs (locals : List (AGV.Name × Rule)) (globals : List (AGV.Name × RuleCore)) (depth : Nat) :
+      StopBy → List AGV.Name
+    | .rule r => ruleVarOccs locals globals depth r
+    | _ => []
+
+def hasZeroWidth (t : Tree) : Bool := t.preorder.any fun n => n.start == n.stop && n.id != t.id
+
+partial def ruleFields : Rule → List Nat
+  | .inside r s f => f.toList ++ ruleFields r ++ stopFields s
+  | .has r s f => f.toList ++ ruleFields r ++ stopFields s
+  | .precedes r s => ruleFields r ++ stopFields s
+  | .follows r s => ruleFields r ++ stopFields s
+  | .all rs _ => (rs.map ruleFields).flatten
+  | .any rs _ => (rs.map ruleFields).flatten
+  | .not r => ruleFields r
+  | .nthChild _ _ (some r) _ => ruleFields r
+  | _ => []
+where
+  stopFields : StopBy → List Nat
+    | .rule r => ruleFields r
+    | _ => []
+
+def fieldsUnique (t : Tree) (fields : List Nat) : Bool :=
+  t.preorder.all fun n => fields.all fun f =>
+    (n.children.filter fun c => c.info.field == some f).length ≤ 1
+
+def opOracleSat : SHandler := fun st a => do
+  let d ← getDoc st a
+  let cj ← a.getObjVal? "core"
+  let core ← parseCore cj
+  let (locals, globals) ← parseRegistry cj
+  let rx ← parseRegexTable (← a.getObjVal? "regex")
+  let ctx : RCtx := { src := d.src, root := d.tree, regex := regexOracle rx, locals, globals }
+  -- the property's quantifier: variable-disjoint sub-patterns, no zero-width nodes, unique
+  -- field labels, no constraints (they are C04's subject)
+  let occs := ruleVarOccs locals globals 8 core.rule
+  let utilFields := (locals.map fun (_, r) => ruleFields r).flatten
+  if occs.eraseDups.length != occs.length || hasZeroWidth d.tree
+      || !(fieldsUnique d.tree (ruleFields core.rule ++ utilFields)) || !core.constraints.isEmpty then
+    pure (st, Json.str "skip")
+  else
+    let ids ← (← getArr a "nodes").toList.mapM fun x => x.getNat?
+    let fuel := ruleFuel d.tree
+    let verdicts := ids.map fun id =>
+      match d.nodes[id]? with
+      | none => Json.null
+      | some n => Json.bool (kindsGateTop core n && Spec.sat ctx fuel core.rule n)
+    pure (st, Json.arr verdicts.toArray)
+where
+  /-- the top-level kind gate of `RuleCore::do_match` never changes the verdict when the cache is
+  sound (C01); the reference semantics ignores it -/
+  kindsGateTop (_core : RuleCore) (_n : Tree) : Bool := true
+
+def ruleOracleOps : List (String × SHandler) := [("oracle:sat", opOracleSat)]
 
 end Driver
